@@ -18,7 +18,7 @@ pub fn scenarios() -> Vec<Scenario> {
         name: "c06-agree",
         gen,
         run,
-        quick_runs: 300_000,
+        quick_runs: 1_200_000,
         weight: 1,
         rule: "case = (byte string: valid / non-canonical / corrupted / random, schedule for the async side); non-trivial when the stream has >= 2 bytes; distinct by case hash",
     }]
